@@ -696,7 +696,8 @@ Section Engine.
       cand <- (if 0 <? n_nint nd then
                  i <- lift E_IntRemove (hd_error (n_interrupted nd)) ;;
                  l' <- lift E_IntRemove (remove_first i (n_interrupted nd)) ;;
-                 put_node (nd <| n_interrupted := l' |> <| n_nint := n_nint nd - 1 |>) ;;; ret (Some i)
+                 put_node (nd <| n_interrupted := l' |> <| n_nint := n_nint nd - 1 |>) ;;;
+                 upd_ind i (fun x => x <| i_interrupted := false |>) ;;; ret (Some i)
                else choose_next_customer j) ;;
       (match cand with
        | None => ret tt
